@@ -471,3 +471,6 @@ def _f12(case, detail, info):
 
 
 KNOWN_PREDICATES = {}
+
+
+RULE = RULE + " " + ('Scenarios are identified by their line (names need not be unique: equally named scenarios / outlines are generated).')
